@@ -310,22 +310,19 @@ type Grouping[K, V any] struct {
 // GroupBy will group all elements in the slice and return a slice of groups,
 // using the key from the function provided.
 func GroupBy[S ~[]V, K comparable, V any](slice S, keyer func(value V) K) []Grouping[K, V] {
-	m := map[K][]V{}
-	var orderedKeys []K
+	indices := map[K]int{}
+	groups := []Grouping[K, V]{}
 	for _, v := range slice {
 		key := keyer(v)
-		values, ok := m[key]
-		m[key] = append(values, v)
+		i, ok := indices[key]
 		if !ok {
-			orderedKeys = append(orderedKeys, key)
+			// Keys that are not equal to themselves (NaN) are never found
+			// again, so each of them forms a group of its own.
+			i = len(groups)
+			indices[key] = i
+			groups = append(groups, Grouping[K, V]{Key: key})
 		}
-	}
-	groups := make([]Grouping[K, V], len(orderedKeys))
-	for i, key := range orderedKeys {
-		groups[i] = Grouping[K, V]{
-			Key:    key,
-			Values: m[key],
-		}
+		groups[i].Values = append(groups[i].Values, v)
 	}
 	return groups
 }
@@ -339,22 +336,19 @@ type Counting[K any] struct {
 // CountBy will count the number of occurrences for each key, using the key
 // from the function provided.
 func CountBy[S ~[]V, K comparable, V any](slice S, keyer func(value V) K) []Counting[K] {
-	m := map[K]int{}
-	var orderedKeys []K
+	indices := map[K]int{}
+	groups := []Counting[K]{}
 	for _, v := range slice {
 		key := keyer(v)
-		count, ok := m[key]
-		m[key] = count + 1
+		i, ok := indices[key]
 		if !ok {
-			orderedKeys = append(orderedKeys, key)
+			// Keys that are not equal to themselves (NaN) are never found
+			// again, so each of them is counted on its own.
+			i = len(groups)
+			indices[key] = i
+			groups = append(groups, Counting[K]{Key: key})
 		}
-	}
-	groups := make([]Counting[K], len(orderedKeys))
-	for i, key := range orderedKeys {
-		groups[i] = Counting[K]{
-			Key:   key,
-			Count: m[key],
-		}
+		groups[i].Count++
 	}
 	return groups
 }
